@@ -3,6 +3,7 @@ import ast
 
 from .. import AnalysisBroken
 from ..data import check_background
+from ..eff import check_pure_params
 from ..libmodels import LIB_FACTS
 from ..rules import Equiv, canon_params, check_equiv, compare_function, lift_ite, std_rewrites, where_of
 from ..ssa import leaves
@@ -83,6 +84,8 @@ def run(r):
     rep = r.rep
     rep.explanation = "Every return path of pcDelta, the default-metric table, downsample and the background loader were normalised and compared with the specification; the shipped table's index was read."
     rep.trust(LIB_FACTS["numpy.histogram"], LIB_FACTS["numpy.random.choice"], LIB_FACTS["DataFrame.sample"], "exact arithmetic (no floating point)")
+    # purity first: cheap, robust, and a recorded violation takes precedence over a later 'cannot decide'
+    check_pure_params(r, "C05-PURE", [D + "pcDelta", D + "downsample", D + "get_default_metric_for_input_data"])
     eq = Equiv(vec=is_vec, rewrites=std_rewrites() + [hist_rewrite], modelled={"numpy.histogram", "numpy.arange"})
     compare_function(r, "C05-PIPE", D + "pcDelta", SPEC, "pcDelta: histogram (count slot, bins forwarded) of the condensed self distances or of the cross matrix of the down-sampled collections; "
                      "raw counts / counts over total / (counts + c) over (total + 2c); bins == 0 returns pc of the same arguments", eq=eq, key="pipeline and arithmetic")
@@ -132,7 +135,7 @@ def run(r):
     # background bins
     compare_function(r, "C05-BG", D + "load_pcDelta_background", SPEC, "bin edges = index values of the bundled table followed by last + 1", eq=Equiv(rewrites=std_rewrites(), modelled={"pandas.read_csv", "os.path.join", "os.path.dirname"}), key="background bins")
     check_background(rep, "C05-BG", r.P.root)
-    for rule, fl in (("C05-PIPE", 1), ("C05-DT", 4), ("C05-DS", 1), ("C05-BG", 2)):
+    for rule, fl in (("C05-PIPE", 1), ("C05-DT", 4), ("C05-DS", 1), ("C05-BG", 2), ("C05-PURE", 9)):
         rep.floor(rule, fl)
 
 
